@@ -182,6 +182,7 @@ def analyzeUnsolvable (cid : Nat) : M (List Nat) := do
     let (c', s') := blame s (s.clauses.size + 1) d.reason conflict seen
     conflict := c'
     seen := s'
+    emit (.blame d.reason)
     for l in clauseLits s (s.clauses.getD d.reason default) do
       if evalLit s l == some true then
         if l.1 != d.var then panic "mod.rs:analyze_unsolvable:assert_eq#1"
@@ -378,7 +379,8 @@ def solve (U : Universe) (P : Problem) (fuel : Nat) : M Outcome := do
     log := s.log, polls := s.polls, cancelAt := s.cancelAt, cancelAtCall := s.cancelAtCall, cancelTransient := s.cancelTransient,
     callsStarted := s.callsStarted, raised := s.raised,
     activityAdd := s.activityAdd, activityDecay := s.activityDecay, trace := s.trace,
-    asyncMode := s.asyncMode, sched := s.sched, aevents := s.aevents }
+    asyncMode := s.asyncMode, sched := s.sched, aevents := s.aevents,
+    gateFs := s.gateFs, cachedMatching := s.cachedMatching, cachedInverse := s.cachedInverse }
   let _ ← allocClause .root none
   match ← runSat U P none fuel with
   | .unsolvable c => return .unsat c
